@@ -14,6 +14,7 @@ from typing import Any
 from .. import e2e, gens
 from ..common import Hang, Rng, hx, unhx, watchdog
 from ..runner import Check
+from ..translate import enum_sites
 from ..translate import unicode as uni
 
 KIND_NAMES = ["base", "pydantic", "enum"]
@@ -292,6 +293,12 @@ def campaign_valid(ck: Check, names: list[str], label: str, cfgs: list[Cfg], cha
     camp.wall_s = time.time() - t0
 
 
+def _enum_reserved(r: str) -> bool:
+    from . import enum_callers
+
+    return enum_callers.enum_reserved(r)
+
+
 def oracle_name(ck: Check, camp, kind: str, cfg: Cfg, inp: dict, r: str, excl: list[str], uc: bool) -> None:
     """C07's statement about one result of the real get_valid_name (function level)."""
     base = {"oracle": "get_valid_name", "kind": kind, "prefix_ok": cfg.prefix_ok()}
@@ -299,8 +306,9 @@ def oracle_name(ck: Check, camp, kind: str, cfg: Cfg, inp: dict, r: str, excl: l
         ck.fail({**base, "mechanism": "illegal_identifier"}, inp, f"result {r!r} is not a legal non-keyword identifier")
     elif r in excl:
         ck.fail({**base, "mechanism": "not_unique"}, inp, f"result {r!r} is one of the excluded names")
-    elif kind == "enum" and r == "mro":
-        ck.fail({**base, "mechanism": "reserved"}, inp, "enum member named mro")
+    elif kind == "enum" and (r == "mro" or (cfg.prefix_ok() and _enum_reserved(r))):
+        ck.fail({**base, "mechanism": "reserved"}, inp,
+                f"enum member name {r!r} is reserved by enum.Enum (attribute such as mro, _sunder_, __dunder__ or __private name)")
     elif kind == "pydantic" and not uc and not cfg.cap:
         from pydantic import BaseModel
 
@@ -1505,6 +1513,21 @@ def known_findings(ck: Check) -> None:
 def search_names(ck: Check) -> None:
     """Targeted search when a proof or a correspondence broke: the inputs of every disagreement and the whole
     small scope (all names of length ≤ 2 over the 14-symbol alphabet, pairs of colliding names), end to end."""
+    from . import enum_callers
+
+    # names on which the ENUM resolver disagrees (and the option vectors of those calls) become enum values of complete documents,
+    # at every caller of the enum resolver
+    enum_dis = [d.input for d in ck.disagreements if isinstance(d.input, dict) and d.input.get("kind") == "enum" and "name" in d.input]
+    if enum_dis or any("enum" in t.lower() for t in ck.broken):
+        cfgs = []
+        for inp in enum_dis[:60]:
+            cf = inp.get("cfg_fields") or {}
+            cfg = Cfg(**{k: (tuple(map(tuple, v)) if k == "aliases" else v) for k, v in cf.items()})
+            if cfg not in cfgs:
+                cfgs.append(cfg)
+        enum_callers.search_names(ck, [inp["name"] for inp in enum_dis[:60]], cfgs[:6])
+        if ck.failures:
+            return
     camp = ck.campaign("search: disagreeing inputs and the small scope, end to end")
     seen = set()
     for d in ck.disagreements[:40]:
@@ -1564,6 +1587,7 @@ def hung(ck: Check) -> bool:
 def run(ck: Check) -> None:
     quick = ck.tier == "quick"
     ck.translate("Unicode", uni.generate())
+    ck.translate("EnumSites", enum_sites.generate())
     ck.prove()
     ck.assumptions += [
         "CPython's str.isidentifier / re \\w / str.isnumeric / keyword.iskeyword and hasattr(pydantic.BaseModel, ·) are the generated tables of Dcg/Gen/Unicode read by Dcg/Py/{Chars,Ident} (validated in this run, character by character and on whole strings)",
@@ -1591,6 +1615,10 @@ def run(ck: Check) -> None:
         campaign_e2e(ck, 700 if quick else 6000, names)
         campaign_typeddict_syntax(ck)
     if not hung(ck):
+        from . import enum_callers
+
+        enum_callers.campaign_names(ck, 250 if quick else 2500)
+    if not hung(ck):
         campaign_td_objects(ck, 400 if quick else 6000)
         campaign_td_inherit(ck, 220 if quick else 4000)
     ck.search_hooks.append(search_td)
@@ -1604,7 +1632,11 @@ def replay(ck: Check, path: str) -> int:
     camp = ck.campaign("replay")
     cf = inp.get("cfg_fields") or {}
     cfg = Cfg(**{k: (tuple(map(tuple, v)) if k == "aliases" else v) for k, v in cf.items()})
-    if "td_doc" in inp:
+    if "enum_values" in inp:
+        from . import enum_callers
+
+        enum_callers.names_case(ck, camp, inp["enum_values"], cfg, inp["model"], inp["position"], inp.get("opts"))
+    elif "td_doc" in inp:
         td_case(ck, camp, inp["td_doc"], cfg, inp.get("opts", {}), inp.get("target", "3.12"), shrink=False)
     elif "model" in inp and "names" in inp:
         e2e_case(ck, camp, inp["names"], cfg, inp["model"], inp.get("required", False), inp.get("nested"), inp.get("bools"))
